@@ -41,6 +41,7 @@ def fresh(prefix, sort):
 #                (the expansion is exact under the side constraints) -- used to obtain counterexamples.
 BOUND = None
 SIDE = []
+UNROLL = False      # with BOUND: loops are unrolled (at most BOUND + 1 iterations) instead of cut by invariants
 
 
 def _qvar(prefix='q'):
